@@ -41,9 +41,34 @@ func mkop(client int, in input, out output, call, ret int64) porcupine.Operation
 
 // ------------------------------------------------------------------ shared map
 
-type mapSubject struct{ m *coapSync.Map[int, int] }
+type mapSubject struct {
+	m *coapSync.Map[int, int]
+	// handed: maps returned by CopyData / LoadAndDeleteAll with what they held when they were returned. A returned map is
+	// the caller's: the operation took effect at one instant, nothing that happens to the shared map afterwards may show
+	// up in it (checked at the quiescent end of the history).
+	hmu    sync.Mutex
+	handed []handedMap
+}
 
-func newMapSubject() *mapSubject { return &mapSubject{coapSync.NewMap[int, int]()} }
+type handedMap struct {
+	op   string
+	m    map[int]int
+	snap state
+}
+
+// handedChanged: operation -> number of returned maps that changed after they had been returned (and one witness)
+var handedChanged sync.Map
+var handedChecked atomic.Int64
+
+func newMapSubject() *mapSubject { return &mapSubject{m: coapSync.NewMap[int, int]()} }
+
+func (s *mapSubject) keep(op string, m map[int]int) state {
+	sn := snapOf(m)
+	s.hmu.Lock()
+	s.handed = append(s.handed, handedMap{op, m, sn})
+	s.hmu.Unlock()
+	return sn
+}
 
 // unlockedCallbacks: operation name -> number of callbacks that found the map's lock free while they ran. A callback of a
 // ...WithFunc operation is part of that operation's critical section ("callbacks run against the value actually in the
@@ -70,8 +95,22 @@ func snapOf(m map[int]int) state {
 	return s
 }
 
-func (s *mapSubject) finalLoad(key int) int        { v, _ := s.m.Load(key); return v }
-func (s *mapSubject) extra() []porcupine.Operation { return nil }
+func (s *mapSubject) finalLoad(key int) int { v, _ := s.m.Load(key); return v }
+func (s *mapSubject) extra() []porcupine.Operation {
+	s.hmu.Lock()
+	defer s.hmu.Unlock()
+	for _, h := range s.handed {
+		handedChecked.Add(1)
+		if now := snapOf(h.m); now != h.snap {
+			v, _ := handedChanged.LoadOrStore(h.op, new(atomic.Int64))
+			if v.(*atomic.Int64).Add(1) == 1 {
+				handedChanged.Store(h.op+"/witness", fmt.Sprintf("returned holding %v, holds %v after later operations on the shared map", h.snap, now))
+			}
+		}
+	}
+	s.handed = nil
+	return nil
+}
 
 func (s *mapSubject) exec(in input, clock *atomic.Int64, client int, yield func()) []porcupine.Operation {
 	var out output
@@ -112,9 +151,9 @@ func (s *mapSubject) exec(in input, clock *atomic.Int64, client int, yield func(
 	case opStoreWithFunc:
 		s.m.StoreWithFunc(in.Key, func() int { s.probe("StoreWithFunc"); return in.Arg })
 	case opCopyData:
-		out.Snap = snapOf(s.m.CopyData())
+		out.Snap = s.keep("CopyData", s.m.CopyData())
 	case opLoadAndDeleteAll:
-		out.Snap = snapOf(s.m.LoadAndDeleteAll())
+		out.Snap = s.keep("LoadAndDeleteAll", s.m.LoadAndDeleteAll())
 	case opLength:
 		out.N = s.m.Length()
 	case opRange2:
@@ -494,6 +533,15 @@ func TestRun(t *testing.T) {
 		return true
 	})
 	rec.Count("callback_lock_probes", callbackProbes.Load())
+	handedChanged.Range(func(k, v any) bool {
+		op, _ := k.(string)
+		if n, ok := v.(*atomic.Int64); ok {
+			w, _ := handedChanged.Load(op + "/witness")
+			rec.Violation("C14/map/returned-map-changes-after-the-call/"+op, fmt.Sprintf("%d map(s) returned by %s changed after the call had returned - the result is not a copy / not the drained map but shares state with the live map (first: %v)", n.Load(), op, w), nil)
+		}
+		return true
+	})
+	rec.Count("returned_maps_rechecked_at_quiescence", handedChecked.Load())
 	rec.Assume("sequential specification: a map from key to value id; Cache.Load hides expired entries, Cache.LoadOrStore replaces expired entries; expiry classes are 'one hour ago' and 'never', so no clock enters a verdict")
 	rec.Assume("Range and CheckExpirations are not atomic by contract: each callback invocation / onExpire is a sub-operation that must linearize within the enclosing call")
 }
